@@ -140,6 +140,28 @@ pub fn exec(tok: &[&str]) -> String {
         "sk_roundtrip" => crate::keys::op_roundtrip(tok[1].parse().unwrap(), &unhex(tok[2])),
         "keygen_digest" => crate::keys::op_digest(tok[1].parse().unwrap(), &unhex(tok[2])),
         "sk_fields" => crate::c04::op_sk_fields(tok[1].parse().unwrap(), &parse_ints::<i64>(tok[2]), &parse_ints::<i64>(tok[3]), &parse_ints::<i64>(tok[4])),
+        // ---- the tower of NTRUSolve (C04) ---------------------------------------------------------------
+        "field_norm" => {
+            let f = parse_ints::<i64>(tok[1]);
+            ints(&pad(vh::field_norm_i64(&f), f.len() / 2))
+        }
+        "lift_poly" => {
+            let f = parse_ints::<i64>(tok[1]);
+            ints(&pad(vh::lift_next_cyclotomic_i64(&f), 2 * f.len()))
+        }
+        "galois_adjoint" => {
+            let f = parse_ints::<i64>(tok[1]);
+            ints(&pad(vh::galois_adjoint_i64(&f), f.len()))
+        }
+        "lift_step" => {
+            let (f, g, cf, cg) = (parse_ints::<i64>(tok[1]), parse_ints::<i64>(tok[2]), parse_ints::<i64>(tok[3]), parse_ints::<i64>(tok[4]));
+            let n = f.len();
+            let one = |c: &[i64], other: &[i64]| {
+                let p = vh::karatsuba_i64(&vh::lift_next_cyclotomic_i64(c), &vh::galois_adjoint_i64(other));
+                pad(vh::reduce_by_cyclotomic_i64(&p, n), n)
+            };
+            format!("{} {}", ints(&one(&cf, &g)), ints(&one(&cg, &f)))
+        }
         "first_drawn" => crate::keys::op_first_drawn(tok[1].parse().unwrap(), &unhex(tok[2])),
         "first_candidate" => crate::keys::op_first_candidate(tok[1].parse().unwrap(), &unhex(tok[2])),
         // ---- signing (C01, C08, C10) ---------------------------------------------------------------------
@@ -175,4 +197,15 @@ pub fn exec(tok: &[&str]) -> String {
         "hash_to_point" => ints(&vh::hash_to_point(&unhex(tok[2]), tok[1].parse().unwrap())),
         _ => panic!("bad-op {}", tok[0]),
     }
+}
+
+/// coefficient vectors are compared at their nominal length (the library drops or keeps trailing zeros freely)
+fn pad(mut v: Vec<i64>, n: usize) -> Vec<i64> {
+    while v.len() > n && v.last() == Some(&0) {
+        v.pop();
+    }
+    while v.len() < n {
+        v.push(0);
+    }
+    v
 }
